@@ -186,10 +186,63 @@ def hand_programs():
     return out
 
 
+def _window_factor(fid, name, dep, width, stride, start, wtype="window"):
+    """Derived factor on simple factor `dep`: level 'hit' iff the newest element of the window is
+    dep's first level, else-level 'miss' (tables list None wherever the window may reach before trial 1)."""
+    names = [l for l, _ in dep["levels"]]
+    table = []
+    for tup in itertools.product(*[names + [None]] * width):
+        if tup[-1] == names[0]:
+            table.append([list(tup)])
+    win = {"type": wtype, "deps": [dep["id"]]}
+    if wtype == "window":
+        win.update({"width": width, "stride": stride, "start": start})
+    return {"id": fid, "name": name, "kind": "derived", "window": win,
+            "levels": [{"name": "hit", "table": table, "weight": 1}, {"name": "miss", "else": True, "weight": 1}]}
+
+
+def strided_family():
+    """Deterministic family (both tiers): a strided window factor (stride 2 / 3, start 0 / 1 / None, width 1..3),
+    kept in act_design by an AtMostKInARow on one of its levels (strided factors cannot be crossed), listed BEFORE a
+    second complex factor (Transition or stride-1 Window) that is crossed or constrained; 3..7 trials via
+    MinimumTrials.  The variables of the second factor start after ALL variables of the strided one, so any
+    miscount of the strided factor's applicable trials (rounding of (trials - start) / stride) makes two choices
+    share a variable or leaves a gap."""
+    out = []
+    f = {"id": 0, "name": "f", "kind": "simple", "levels": [["a", 1], ["b", 1]]}
+    for stride in (2, 3):
+        for start in (0, 1, None):
+            for width in (1, 2, 3):
+                w = _window_factor(1, "w", f, width, stride, start)
+                for second in ("transition-constrained", "window-constrained", "transition-crossed"):
+                    if second == "window-constrained":
+                        t = _window_factor(2, "t", f, 2, 1, None)
+                    else:
+                        t = _window_factor(2, "t", f, 2, 1, 1, wtype="transition")
+                    for m in (3, 4, 5, 6, 7):
+                        cons = [{"id": 0, "kind": "AtMostKInARow", "k": 2, "level": [1, "hit"]},
+                                {"id": 1, "kind": "MinimumTrials", "trials": m}]
+                        cs = [0, 1]
+                        crossing = [0]
+                        if second == "transition-crossed":
+                            crossing = [0, 2]
+                        else:
+                            cons.append({"id": 2, "kind": "AtMostKInARow", "k": 3, "level": [2, "hit"]})
+                            cs.append(2)
+                        p = {"factors": [f, w, t], "constraints": cons,
+                             "blocks": [{"id": 0, "kind": "CrossBlock", "design": [0, 1, 2], "crossing": crossing,
+                                         "constraints": cs, "rcc": True}], "main": 0}
+                        out.append(("strided-before-complex", p))
+    return out
+
+
 def gen_programs(ctx, n):
-    """Seeded stream of (tag, program)."""
+    """Seeded stream of (tag, program); the hand-written programs and the strided family come on top of n."""
     rng = ctx.rng
     out = [(tag, p) for tag, p in hand_programs()]
+    fam = strided_family()
+    n += len(fam)
+    out += fam
     shapes = ["cross", "cross", "multi", "repeat", "merge", "nest", "cross", "repeat"]
     i = 0
     while len(out) < n:
@@ -634,7 +687,7 @@ def run(ctx, res):
     n = 150 if ctx.quick else 1500
     limit_all = 64 if ctx.quick else 256
     nrandom = 6 if ctx.quick else 10
-    res.rule = ("%d experiment programs (hand-written corpus, gen_design shapes cross/multi/repeat/merge/nest with "
+    res.rule = ("%d experiment programs + the deterministic strided-window family (hand-written corpus, gen_design shapes cross/multi/repeat/merge/nest with "
                 "within/transition/window factors, Nest with transition/window factors in the outer/inner crossing, "
                 "same-name variants); per program: layout bundle, all one-hot assignments if <= %d else %d random ones, "
                 "3 random assignments, up to 3 real solver models; non-trivial = accepted by the constructors with at "
@@ -659,7 +712,7 @@ def run(ctx, res):
                                                                      for _, a, _ in r["sols"])))
     outs = ctx.model(lines) if lines else []
     oi = 0
-    stats = {"rejected": 0, "built": 0, "harness-error": 0, "nonterminating": 0, "timeout": 0, "complex": 0, "sustain>1": 0, "complex+sustain": 0,
+    stats = {"rejected": 0, "built": 0, "harness-error": 0, "nonterminating": 0, "timeout": 0, "complex": 0, "sustain>1": 0, "complex+sustain": 0, "two-complex": 0, "strided-first-partial-stride": 0,
              "same-name": 0, "wf_layout": 0, "keys_distinct": 0, "exhaustive-onehot": 0, "solver-models": 0, "decode-errors": 0, "assignments": 0}
     shapes = {}
     corr_bad = []
@@ -697,6 +750,10 @@ def run(ctx, res):
         stats["complex"] += bool(cplx)
         stats["sustain>1"] += bool(sus)
         stats["complex+sustain"] += bool([f for f in cplx if f in sus])
+        stats["two-complex"] += len(cplx) >= 2
+        if len(cplx) >= 2:
+            w0 = cplx[0].first_level.window
+            stats["strided-first-partial-stride"] += (w0.stride > 1 and (r["T"] - w0.start) % w0.stride != 0)
         stats["same-name"] += "same_name" in p
         stats["exhaustive-onehot"] += bool(r["exhaustive"])
         if isinstance(r["solver"], int):
